@@ -62,6 +62,16 @@ CHECKS = {
    text="As C10 restricted to the file mutations inside Merge (creation of rewrite files, rewritten records, removals, torn writes): for every such point of every generated pre-merge history the directory is rebuilt, the real Open runs on it, and TLC accepts only success serving exactly Replay(log) - the contents before Merge. KV histories (both RAM modes, FileIO/MMap) are judged strictly; with list or sorted-set records the pinned tree deviates (known finding F-C16-1: operation records are replayed twice or in a different order).",
    note="Trusts TLC, the recording wrapper and the image builder.",
    technique="TLA+ trace validation with TLC of crash images built from hook-recorded file mutations inside Merge"),
+ "C04": dict(
+   cat="model_checking", design="DESIGN.md section 6 C04",
+   text="Trace validation of histories over adversarial bucket names ('a', 'ab', '', 'a|b', 'b' - prefixes of each other and of keys, so that bucket+key concatenations coincide, the empty name, a name containing the list separator), the same keys stored in several buckets with different values, for KV, lists, sets and sorted sets (KV also in HintKeyAndRAMIdxMode); after every transaction a full observation of every bucket of every structure is recorded and TLC accepts it only if it equals the model, in which a commit changes only the buckets its records name. The action property BucketIsolation is model-checked on NutsMC.",
+   note="Trusts TLC and the recording wrapper. Sparse index mode (where the pinned tree keys its active index by the concatenation bucket+key) is not yet covered by this check.",
+   technique="TLA+ trace validation with TLC (code -> spec) + bounded model checking of the action property BucketIsolation"),
+ "C19": dict(
+   cat="model_checking", design="DESIGN.md section 6 C19",
+   text="Product traces: the same seeded history (KV with TTL/deletes/failed transactions/merges in both RAM index modes; all structures in HintKeyValAndRAMIdxMode; reopens and shadow reopens) is executed under every combination of RWMode x StartFileLoadingMode x SyncEnable (x index mode): 16 resp. 8 configurations. Every event carries one digest of (operation, arguments, results) per configuration; TLC requires all digests to be equal and the first configuration's event to be a step of Nuts.tla, whose actions have no option-dependent behaviour.",
+   note="Digests are computed by the driver; equality is judged by TLC. SPop is excluded from product histories because its choice is legitimately nondeterministic. Sparse mode is not yet part of the product.",
+   technique="TLA+ trace validation with TLC of product traces over all storage-option combinations"),
  "C01": dict(
    cat="model_checking", design="DESIGN.md section 6 C01",
    text="Trace validation: seeded random KV histories (multi-bucket, TTL on both sides of expiry, segments of 128-512 bytes so nearly every transaction rotates, reopen) are executed on the real library in HintKeyValAndRAMIdxMode and HintKeyAndRAMIdxMode x FileIO and MMap, every call is recorded, and TLC accepts the trace only if every Get/GetAll/RangeScan/PrefixScan/PrefixSearchScan result equals the KVSpec ordered-map-with-TTL result on the specification state (Nuts.tla). The API-grain design is model-checked exhaustively for a small universe (NutsMC_kv.cfg).",
